@@ -65,6 +65,17 @@ func c01DrawPayload(maxAnn int) (c01Payload, []byte) {
 	return p, vr.JSONBytes(vr.JObj("targetArtifact", vr.JObj(members...)))
 }
 
+// c01ContentType: the payload content type of the envelope. Quick tier: the exact Notary type or one of its
+// near misses (parameters, letter case, padding, truncation, other types) as one merged symbolic choice;
+// thorough tier additionally every string of the same length.
+func c01ContentType() string {
+	if vr.Tier() > 0 && vr.Choice("payload.contentType.free", 2) == 1 {
+		return vr.Str("payload.contentType", len(c01PayloadType))
+	}
+	return vr.OneOf("payload.contentType", c01PayloadType, c01PayloadType+";version=2", c01PayloadType+"; charset=utf-8", "Application/Vnd.Cncf.Notary.Payload.V1+json",
+		"APPLICATION/VND.CNCF.NOTARY.PAYLOAD.V1+JSON", c01PayloadType+" ", " "+c01PayloadType, c01PayloadType[:len(c01PayloadType)-1], "application/vnd.cncf.notary.payload.v2+json", "application/json", "")
+}
+
 type c01World struct {
 	store     *kitStore
 	validator *kitValidator
@@ -138,7 +149,7 @@ func VsymC01OCI() {
 		kitEnv.verifyErr = vr.Choice("verify", 5)
 	}
 	scheme := []signature.SigningScheme{signature.SigningSchemeX509, signature.SigningSchemeX509SigningAuthority}[vr.Choice("scheme", 2)]
-	ctype := vr.Str("payload.contentType", len(c01PayloadType))
+	ctype := c01ContentType()
 	pl, payloadBytes := c01DrawPayload(vr.Param("annotations", 1))
 	w := c01Collaborators(scheme)
 	kitEnv.content = &signature.EnvelopeContent{
@@ -202,7 +213,7 @@ func VsymC01Blob() {
 	level, ov := kitLevel("lv", vr.Param("overrides", 1))
 	kitEnv.verifyErr = vr.Choice("verify", 2) * 3
 	scheme := signature.SigningSchemeX509
-	ctype := vr.Str("payload.contentType", len(c01PayloadType))
+	ctype := c01ContentType()
 	pl, payloadBytes := c01DrawPayload(vr.Param("annotations", 1))
 	w := c01Collaborators(scheme)
 	algs := []signature.Algorithm{signature.AlgorithmPS256, signature.AlgorithmPS384, signature.AlgorithmPS512, signature.AlgorithmES256, signature.AlgorithmES384, signature.AlgorithmES512, 0, 99}
